@@ -225,6 +225,9 @@ def _stepwise(c, n):
     if p.returncode != 0:
         raise tlc.MachineryError('configure worker failed (is the PENMAN_VERIF hook present in penman/layout.py?): ' + p.stderr[-1500:])
     traces = [json.loads(l) for l in p.stdout.splitlines() if l.strip()]
+    if traces and traces[0].get('nohook'):
+        c.notes.append('step-wise validation skipped: this copy of penman/layout.py has no PENMAN_VERIF hook')
+        return
     if len(traces) != len(jobs):
         raise tlc.MachineryError('configure worker returned %d traces for %d jobs' % (len(traces), len(jobs)))
     for t in traces:
